@@ -58,6 +58,7 @@ def gen_module(ob):
         ', '.join('%r: %s' % (n, n) for n, _ in ob.get('args', [])))
     src = '''
 import harness.%(mod)s as H
+import harness.keys as _K
 P = %(params)r
 PATHS = [0]
 
@@ -66,6 +67,7 @@ def ob(%(sig)s) -> bool:
 %(doc)s    post: _
     """
     PATHS[0] += 1
+    _K.begin_path(%(obid)r, {%(named)s})
     %(call)s
     return True
 
@@ -75,7 +77,8 @@ def twin(%(sig)s) -> bool:
     """
     %(call)s
     return False
-''' % dict(mod=ob['mod'], params=ob.get('params', {}), sig=', '.join(args), doc=doc, call=call)
+''' % dict(mod=ob['mod'], params=ob.get('params', {}), sig=', '.join(args), doc=doc, call=call, obid=ob['id'],
+            named=', '.join('%r: %s' % (n, n) for n in names))
     return src, names
 
 
